@@ -77,14 +77,26 @@ ReqPlain(S) == AesDec(Ref("K2"), Slice(Req, 16, 32), SliceDyn(Req, 32, Slice(Req
 SessionDefs(S) == [SIK |-> SIK(S), K1 |-> K1(S), K2 |-> K2(S)]
 SessionRecipes(S) == [authOK |-> ReqAuthOk(S), plain |-> ReqPlain(S)]
 
+React0 == [k |-> "react", captures |-> <<>>, checks |-> <<>>, datagrams |-> <<>>, fail |-> "none"]
+Dg(t, attrs) == [t |-> t, when |-> "now", attrs |-> attrs]
+\* rule-driven BMC side of Get Channel Cipher Suites (22.15): one rule per list index, 16-byte chunks
+ChunkOf(data, i) == SubSeq(data, 16 * i + 1, IF 16 * i + 16 < Len(data) THEN 16 * i + 16 ELSE Len(data))
+IsCipherReq == And(<< Eq(Slice(Req, 5, 6), B(<<0>>)), Eq(Slice(Req, 17, 18), B(<<24>>)), Eq(Slice(Req, 21, 22), B(<<84>>)) >>)
+CipherRule(data, i) ==
+  [rule |-> "chunk", when |-> << IsCipherReq, Eq(Slice(Req, 24, 25), B(<<128 + i>>)) >>,
+   datagrams |-> << Dg(NullWrapper(0, MsgRsp(7, 84, 0, <<14>> \o ChunkOf(data, i))), [kind |-> "chunk", i |-> i]) >>]
+\* any other index: an empty chunk (the list has ended)
+CipherRuleDefault ==
+  [rule |-> "chunk-beyond", when |-> << IsCipherReq >>,
+   datagrams |-> << Dg(NullWrapper(0, MsgRsp(7, 84, 0, <<14>>)), [kind |-> "chunk", i |-> 99]) >>]
+CipherRules(data) == [i \in 1..((Len(data) \div 16) + 1) |-> CipherRule(data, i - 1)] \o << CipherRuleDefault >>
+
 CallNewV2Session(S) ==
   [k |-> "call", api |-> "NewV2Session",
    args |-> [Username |-> S.uname, Password |-> S.pw, KG |-> S.kg, MaxPrivilegeLevel |-> S.priv,
              PrivilegeLevelLookup |-> S.lookup,
              CipherSuites |-> << [AuthenticationAlgorithm |-> S.authNum, IntegrityAlgorithm |-> S.integNum,
                                    ConfidentialityAlgorithm |-> S.confNum] >>]]
-React0 == [k |-> "react", captures |-> <<>>, checks |-> <<>>, datagrams |-> <<>>, fail |-> "none"]
-Dg(t, attrs) == [t |-> t, when |-> "now", attrs |-> attrs]
 HonestOsr(S)   == [React0 EXCEPT !.captures = << Cap("tag1", OsrTag), Cap("sidM", ConsoleSid) >>,
                                  !.datagrams = << Dg(NullWrapper(17, OpenSessionRspT(S)), [kind |-> "osr"]) >>]
 HonestRakp2(S) == [React0 EXCEPT !.captures = << Cap("tag2", R1Tag), Cap("Rm", RmObs) >>,
